@@ -1,9 +1,12 @@
 """C08, sequential part: IntrusivePtr / RefCountedObject operation histories (seqmc).  The threaded unit lives elsewhere."""
 from vcheck import Unit, ASAN, ASAN_ENV
 
+# exploration without symbolizer (a replay re-executes itself with symbolize=1, see harness/C10_seqmc.h)
+_ENV = dict(ASAN_ENV, ASAN_OPTIONS=ASAN_ENV["ASAN_OPTIONS"] + ":symbolize=0")
+
 UNITS_LOCAL = {"C08": [
     Unit("histories", ["harness/C08_histories.cpp"],
-         flags=ASAN, env=ASAN_ENV, opt="-O1", engine="seqmc",
+         flags=ASAN, env=_ENV, opt="-O1", engine="seqmc",
          budget={"quick": 100, "thorough": 1000},
          rule=("every history of 6 (thorough 7) enabled operations over a pool of 2 heap objects (obj0 a Base, obj1 a Derived:Base, both counting destructor runs) and 3 heap-allocated handle slots "
                "(h0,h1 IntrusivePtr<Base>, h2 Ref<Derived>), each replayed on fresh objects inside a forked ASan+UBSan shard (every shorter history is a checked prefix); alphabet of 45: "
